@@ -209,3 +209,10 @@ package engine
 //@   ensures [input_set] s.input == input
 //@   ensures [last_seen_follows] (!isnil(input) && s.contact != nil) ==> (s.contact.lastSeenOn != nil && instant(deref(s.contact.lastSeenOn)) == instant(input.CreatedOn()))
 //@   ensures [otherwise_untouched] (isnil(input) && s.contact != nil) ==> s.contact.lastSeenOn == old(s.contact.lastSeenOn)
+
+// ---- C19 / C18 / C02: the merged environment is built from the session's CURRENT base environment on every call (a
+// redaction policy, language list or timezone installed by a resume takes effect at once; nothing is cached)
+//@ func (s *session) MergedEnvironment
+//@   requires s != nil && !isnil(s.assets)
+//@   assigns nothing
+//@   ensures [wraps_current] typeis(result, *flows.sessionEnvironment) && result.(*flows.sessionEnvironment) != nil && typeis(result.(*flows.sessionEnvironment).Environment, *flows.assetsEnvironment) && result.(*flows.sessionEnvironment).Environment.(*flows.assetsEnvironment).Environment == s.env
